@@ -203,7 +203,7 @@ class Ed25519Key(PKey):
         return m
 
     def verify_ssh_sig(self, data, msg):
-        if msg.get_text() != self.name:
+        if self._get_sig_algorithm(msg) != self.name:
             return False
 
         try:
